@@ -116,10 +116,24 @@ def src_harness_for(factory, kind):
     return h
 
 
+MORE_SOURCES = [
+    "def f(x, y):\n    for i in range(x):\n        if i == y:\n            return 1\n        if i > y:\n            return 2\n    return 3\n",
+    "def f(x, y):\n    while x:\n        x -= 1\n        if x == y:\n            break\n        if x < y:\n            return 7\n        if x == 3:\n            continue\n        y += 1\n    else:\n        return 5\n    return x\n",
+    "def f(x, y):\n    if x:\n        while y:\n            y -= 1\n    else:\n        while x < 5:\n            x += 1\n    return x + y\n",
+    "def f(x, y):\n    for i in range(x):\n        for j in range(y):\n            if i == j:\n                return i\n            if j > 2:\n                break\n        else:\n            continue\n        y += 1\n    return y\n",
+    "def f(x, y):\n    if x:\n        if y:\n            return 1\n        while x:\n            x -= 1\n    else:\n        y = 2\n    return y\n",
+]
+
+
 def extra_harness(E, ctx, aux):
     from vf.props.C09 import EXTRA_SOURCES
 
     i = E.realize(aux["i"])
+    if i >= len(EXTRA_SOURCES):
+        src = MORE_SOURCES[i - len(EXTRA_SOURCES)]
+        _emit(ctx, {"kind": "source", "src": src})
+        _emit(ctx, {"kind": "bytecode", "src": src})
+        return
     src = EXTRA_SOURCES[i]
     ns = {}
     exec(compile(src, "<c12>", "exec"), ns)
@@ -142,11 +156,11 @@ def jobs(tier):
 
     def xspace():
         i = z3.Int("i")
-        return z3.And(i >= 0, i < len(EXTRA_SOURCES)), [i], {"i": i}
+        return z3.And(i >= 0, i < len(EXTRA_SOURCES) + len(MORE_SOURCES)), [i], {"i": i}
 
     js = [gj("S1-N3-all-entries", 3), gj("S1-N4-all-entries", 4)]
     js.append(pj("source-S2-ctl-c1", lambda ch: s2.CtlGen(ch, 1, 2, 1), 3, "source", {"space": "S2-ctl", "compounds<=": 1, "pipeline": "AST2SCFG, restructure, SCFG2AST text"}))
-    js.append(Job("bytecode-functions", xspace, extra_harness, bounds={"functions": len(EXTRA_SOURCES)}, budget_s=300))
+    js.append(Job("hand-written-functions", xspace, extra_harness, bounds={"bytecode_functions": len(EXTRA_SOURCES), "multi_exit_sources_both_front_ends": len(MORE_SOURCES)}, budget_s=600, path_timeout_s=120))
     if tier == "thorough":
         js.append(gj("S1-N5-entry-b0-le6-edges", 5, 0, max_edges=6, budget=2400))
         js.append(pj("source-S2-expr-d1", lambda ch: s2.ExprGen(ch, 1, rich_leaves=True), 2, "source", {"space": "S2-expr", "depth<=": 1}, budget=1200))
